@@ -6,8 +6,11 @@ RqModel/Lemmas/StoreSM.lean). `Reach` is EVERY finite history of write requests,
 invalid loads, boots, snapshots with any number of trailing logs, and crash/close +
 reopen, from a fresh node. Tied to the code by the C22 differential run on real stores
 (loads of generated WAL-mode and DELETE-mode files, SQL-text loads, invalid data, boots,
-snapshots, restarts on both paths, a joining node) and the regenerated facts in
-Gen/StoreOrder.lean.
+snapshots, restarts on both paths, a joining node that then applies a load, an invalid load
+and a write together with the first) and the regenerated facts in Gen/StoreOrder.lean.
+Multi-node statements: a cluster is a set of per-node schedules over the same data operations
+(`same_log_same_db`), a later joiner is `joinFrom` (`join_gets_leader_db`, `joiner_follows`);
+`load_replaces_everywhere` / `boot_replaces_everywhere` are stated over those.
 -/
 import RqModel.Lemmas.StoreSM
 import RqModel.Gen.StoreOrder
@@ -22,7 +25,7 @@ inductive Op where
   | snapshotAborted          -- checkpoint done, then Persist fails: the sink is cancelled, nothing installed
   | snapshotNoFingerprint (trailing : Nat)   -- snapshot installed, but the finalizer fails (only logged)
   | restart                  -- crash or close at this point, then reopen
-deriving Repr
+deriving Repr, DecidableEq
 
 def apply (n : Node) : Op → Node
   | .write c => write n c
@@ -114,20 +117,86 @@ theorem live_run {n : Node} (g : Good n) (ops : List Op) : (run n ops).live = op
     show (run (apply n op) ops).live = ops.foldl effect (effect n.live op)
     rw [ih (good_apply g op), live_apply g op]
 
-/-- **load_replaces_everywhere.** After ANY history, a successful load of `d` followed by
-ANY later history (writes, snapshots, further restarts on either path, …) leaves exactly
-`d` plus the later operations — nothing of the database before the load survives, on the
-live path and after every restart. -/
-theorem load_replaces_everywhere (pre post : List Op) (d : Db) :
+/-- **load_replaces_on_node_across_restarts.** ONE node: after ANY history, a successful load
+of `d` followed by ANY later history (writes, snapshots, further restarts on either path, …)
+leaves exactly `d` plus the later operations — nothing of the database before the load
+survives, on the live path and after every restart. -/
+theorem load_replaces_on_node_across_restarts (pre post : List Op) (d : Db) :
     (run {} (pre ++ [.write (.load d)] ++ post)).live = post.foldl effect d := by
   rw [live_run good_init, List.foldl_append, List.foldl_append]
   rfl
 
 /-- the same for a boot -/
-theorem boot_replaces_everywhere (pre post : List Op) (d : Db) :
+theorem boot_replaces_on_node_across_restarts (pre post : List Op) (d : Db) :
     (run {} (pre ++ [.boot d] ++ post)).live = post.foldl effect d := by
   rw [live_run good_init, List.foldl_append, List.foldl_append]
   rfl
+
+/-! ### every node: same log, own schedule; and nodes that join afterwards
+
+A node's list of operations is its OWN schedule: the log entries it applies (`.write`; `.boot`
+on the node that was booted) interleaved with ITS snapshots, failed snapshots and restarts.
+Two nodes of a cluster differ in everything but the data operations. `dataOps` is that common
+part. -/
+
+def Op.isData : Op → Bool
+  | .write _ => true
+  | .boot _ => true
+  | _ => false
+
+def dataOps (ops : List Op) : List Op := ops.filter Op.isData
+
+theorem foldl_effect_data (ops : List Op) : ∀ d : Db, ops.foldl effect d = (dataOps ops).foldl effect d := by
+  induction ops with
+  | nil => intro d; rfl
+  | cons op ops ih =>
+    intro d
+    cases op <;> simp [dataOps, List.filter, Op.isData, List.foldl, effect] <;> exact ih _
+
+/-- nodes that apply the same data operations hold the same database, whatever their own
+schedules of snapshots (complete, aborted, without fingerprint) and restarts -/
+theorem same_log_same_db (ops1 ops2 : List Op) (h : dataOps ops1 = dataOps ops2) :
+    (run {} ops1).live = (run {} ops2).live := by
+  rw [live_run good_init, live_run good_init, foldl_effect_data ops1, foldl_effect_data ops2, h]
+
+/-- **join_gets_leader_db.** The "snapshot transfers to nodes that join afterwards" clause: a
+node that joins a reachable node `n` with nothing of its own (newest installed snapshot + the
+log after it) holds exactly `n`'s database, and is itself in a good state. -/
+theorem join_gets_leader_db {n : Node} (g : Good n) : (joinFrom n).live = n.live ∧ Good (joinFrom n) := by
+  have hd : DurInv { crash n with fp := false, dbFile := [], dbFileOk := true, peersFile := none } :=
+    ⟨g.1.snap_le, g.1.nosnap, fun hf => by cases hf⟩
+  obtain ⟨hl, _, h', q', _⟩ := open_truth hd rfl
+  refine ⟨?_, h', q'⟩
+  show (openNode _).live = n.live
+  rw [hl, g.2.live]; rfl
+
+/-- the joiner then follows: any later schedule on it gives what the same data operations give
+on the node it joined -/
+theorem joiner_follows {n : Node} (g : Good n) (more1 more2 : List Op) (h : dataOps more1 = dataOps more2) :
+    (run (joinFrom n) more1).live = (run n more2).live := by
+  obtain ⟨hl, gj⟩ := join_gets_leader_db g
+  rw [live_run gj, live_run g, hl, foldl_effect_data more1, foldl_effect_data more2, h]
+
+/-- **load_replaces_everywhere.** EVERY node — any schedule `ops` whose data operations are
+`pre`, the load of `d`, `post` — holds exactly `d` plus the later operations; and so does
+every node that joins any such node afterwards. Nothing of the database before the load
+survives anywhere. -/
+theorem load_replaces_everywhere (ops pre post : List Op) (d : Db)
+    (h : dataOps ops = pre ++ [.write (.load d)] ++ post) :
+    (run {} ops).live = post.foldl effect d ∧ (joinFrom (run {} ops)).live = post.foldl effect d := by
+  have hl : (run {} ops).live = post.foldl effect d := by
+    rw [live_run good_init, foldl_effect_data, h, List.foldl_append, List.foldl_append]; rfl
+  exact ⟨hl, by rw [(join_gets_leader_db (good_run good_init ops)).1, hl]⟩
+
+/-- **boot_replaces_everywhere.** The booted node under any schedule, and every node that
+joins it afterwards (a boot is not a log entry: joiners get it by snapshot transfer), hold
+exactly the booted database plus the later operations. -/
+theorem boot_replaces_everywhere (ops pre post : List Op) (d : Db)
+    (h : dataOps ops = pre ++ [.boot d] ++ post) :
+    (run {} ops).live = post.foldl effect d ∧ (joinFrom (run {} ops)).live = post.foldl effect d := by
+  have hl : (run {} ops).live = post.foldl effect d := by
+    rw [live_run good_init, foldl_effect_data, h, List.foldl_append, List.foldl_append]; rfl
+  exact ⟨hl, by rw [(join_gets_leader_db (good_run good_init ops)).1, hl]⟩
 
 /-- the load is in the durable state at once: a crash right after it, on a node in any
 reachable state, restarts with the loaded database (log replay re-applies the LOAD entry;
@@ -169,6 +238,28 @@ theorem load_sets_full_needed (pre : List Op) (d : Db) (ws : List Cmd) (t : Nat)
   obtain ⟨_, _, _, hh, _, hs, hf, _⟩ := snapshot_spec g2.1 g2.2 t
   exact ⟨by rw [hs, hh, l2, hl], hf⟩
 
+/-- **load_forces_full_snapshot**: the flag is READ. After a load (and any later writes)
+`fsmSnapshot` takes the full branch; an INCREMENTAL snapshot that was begun before the load
+(checkpoint done) and reaches `Sink.Close` after it is refused: nothing installed, the
+requirement stays; a full one is accepted, and afterwards incremental snapshots are due again. -/
+theorem load_forces_full_snapshot (n : Node) (d : Db) (ok : Bool) :
+    snapKindDue (write n (.load d)) = .full ∧
+    (let m := snapPersist (write (snapCheckpoint n) (.load d))
+     (sinkCloseK .incremental ok m).2 = true ∧
+     (sinkCloseK .incremental ok m).1.snap = n.snap ∧
+     (sinkCloseK .incremental ok m).1.fullNeeded = true ∧
+     sinkCloseK .full ok m = (sinkClose ok m, false) ∧
+     snapKindDue (sinkCloseK .full ok m).1 = .incremental) := by
+  refine ⟨rfl, ?_⟩
+  cases ok <;>
+    simp [sinkCloseK, sinkRefuses, snapPersist, persistSteps, persistStep, List.foldl, write, fsmApply, appendEntry,
+      swapRun, swapSteps, swapStep, snapCheckpoint, snapKindDue, sinkClose, sinkCloseSteps, sinkStep]
+
+/-- without a load no full snapshot is due: incremental snapshots are accepted -/
+theorem incremental_accepted_without_load (n : Node) (h : n.fullNeeded = false) (ok : Bool) :
+    snapKindDue n = .incremental ∧ sinkCloseK .incremental ok n = (sinkClose ok n, false) := by
+  simp [snapKindDue, sinkCloseK, sinkRefuses, h]
+
 /-- **boot_then_snapshot**: a boot ends with the booted database live, installed as the
 newest snapshot at the last index, and it is what a restart on either path produces -/
 theorem boot_then_snapshot (pre : List Op) (d : Db) :
@@ -204,6 +295,30 @@ theorem invalid_load_reports_error (n : Node) :
     ((swapSteps.take 2).foldl (swapStep none) { n := n }).n = n := by
   simp [swapSteps, List.take, List.foldl, swapStep]
 
+theorem writeR_node (n : Node) (c : Cmd) : (writeR n c).1 = write n c := by cases c <;> rfl
+
+/-- **invalid_load_is_rejected**: the client of an invalid load gets an error back, and the node
+is as `invalid_load_rejected_without_change` says -/
+theorem invalid_load_is_rejected (n : Node) : (writeR n .loadBad).2 = true ∧ (writeR n .loadBad).1 = write n .loadBad := by
+  refine ⟨?_, writeR_node n .loadBad⟩
+  simp [writeR, fsmApplyR, swapSteps, List.foldl, swapStep]
+
+/-- a load of a database SQLite can open returns no error -/
+theorem valid_load_is_accepted (n : Node) (d : Db) : (writeR n (.load d)).2 = false ∧ (writeR n (.load d)).1 = write n (.load d) := by
+  refine ⟨?_, writeR_node n (.load d)⟩
+  simp [writeR, fsmApplyR, swapSteps, List.foldl, swapStep]
+
+/-- **load_scratch_io_failure_witness**: the `_everywhere` theorems ASSUME each node's own
+scratch-file I/O works while it applies the LOAD entry. A node where it fails answers with an
+error (no panic), keeps its old database and goes on: it differs from the others until it is
+restarted (replay applies the entry again) — exits 1 and 2 of `loadExits`. -/
+theorem load_scratch_io_failure_witness :
+    let n : Node := write {} (.exec false [.put 1 1])
+    (writeScratchFails n (.load [(9, 9)])).1.live = [(1, 1)] ∧ (writeScratchFails n (.load [(9, 9)])).2 = true ∧
+    (write n (.load [(9, 9)])).live = [(9, 9)] ∧
+    (openNode (crash (writeScratchFails n (.load [(9, 9)])).1)).live = [(9, 9)] := by
+  decide
+
 /-- the ORDER of the gates matters: with the "can SQLite open it" check after the removal of the
 current database (where the unrepaired code effectively had it: the first failure came from
 opening the renamed file), invalid data leaves the node without a database -/
@@ -225,6 +340,11 @@ theorem code_load_gates :
     RqModel.Gen.StoreOrder.chunkGate = some true ∧
     RqModel.Gen.StoreOrder.loadSetsFullNeeded = some true := ⟨rfl, rfl, rfl, rfl, rfl⟩
 
+/-- the exits of `CommandProcessor.Process`, case LOAD, and who reads the full-snapshot requirement -/
+theorem code_load_exits_and_kind :
+    RqModel.Gen.StoreOrder.loadCaseReturns = loadExits.map LoadExit.code ∧
+    RqModel.Gen.StoreOrder.snapshotKindSteps = snapKindCode := by decide
+
 /-! ### non-vacuity -/
 
 def exLoad : Db := [(1, 10), (2, 20)]
@@ -235,5 +355,10 @@ def exHist : List Op :=
 example : (run {} exHist).live = [(1, 11), (2, 22), (3, 30)] := by decide
 example : (run {} (exHist ++ [.boot [(7, 70)], .restart])).live = [(7, 70)] := by decide
 example : (write (run {} (exHist.take 2)) (.load exLoad)).fullNeeded = true := by decide
+-- a follower with another schedule (no snapshots, one restart) and a node joining the leader
+def exFollower : List Op := exHist.filter fun op => match op with | .snapshot _ => false | _ => true
+example : dataOps exFollower = dataOps exHist := by decide
+example : (joinFrom (run {} exHist)).live = [(1, 11), (2, 22), (3, 30)] := by decide
+example : (joinFrom (run {} (exHist ++ [.boot [(7, 70)]]))).live = [(7, 70)] := by decide
 
 end C22
